@@ -88,6 +88,9 @@ def _job(job) -> List[Dict[str, Any]]:
         c = f"{d['kind']}: {norm_text(d['node'], 80)}"
         if d["ok"]:
             inst("R8.1", "HOLDS", c, "", {"proof": d["info"].get("msg", ""), "visits": d["visits"]}, m, qn, getattr(d["node"], "lineno", 0))
+        elif d.get("weak"):
+            inst("R8.1", "UNDECIDED", c, f"reachable from {entry} ({case}): " + "; ".join(d["msgs"][:2]) + " [the value is read from a list whose elements are overwritten by index: "
+                 "the placeholder and the final elements are joined, so the range may be an artefact of the analysis]", {}, m, qn, getattr(d["node"], "lineno", 0))
         else:
             inst("R8.1", "VIOLATED", c, f"reachable from {entry} ({case}): " + "; ".join(d["msgs"][:2]), {}, m, qn, getattr(d["node"], "lineno", 0))
     # ---- R8.2 finiteness
@@ -97,7 +100,7 @@ def _job(job) -> List[Dict[str, Any]]:
                 v = ev.data.get("val")
                 m, fn, ln = where(ev)
                 ok = isinstance(v, Num) and v.rng is not None and v.rng.finite()
-                inst("R8.2", "HOLDS" if ok else ("UNDECIDED" if failed_lemmas or I.widened else "VIOLATED"), f"stored {ev.data['field']} is finite: {norm_text(ev.node, 60)}",
+                inst("R8.2", "HOLDS" if ok else ("UNDECIDED" if failed_lemmas or I.widened or "WEAK" in getattr(v, "prov", ()) else "VIOLATED"), f"stored {ev.data['field']} is finite: {norm_text(ev.node, 60)}",
                      "" if ok else f"the interval analysis cannot bound the stored {ev.data['field']} ({getattr(v, 'rng', None)}) on the input box ({case}): silent overflow to inf/nan is possible"
                      + (f" [a relational lemma could not be discharged: {failed_lemmas[0]}]" if failed_lemmas else "")
                      + (" [a loop was closed by widening: the bound may be an artefact of the analysis]" if I.widened and not failed_lemmas else ""),
